@@ -12,7 +12,7 @@ use serde::{Deserialize, Serialize};
 pub fn def() -> PropDef {
     PropDef {
         id: "C03",
-        rule: "generated primitive calls (fft/ifft: buffer of n<=~1100 shards x 1..4 blocks, pos with guard shards on both sides, size=2^a, truncated_size in {0,1,size,2^b+-1,random}, skew_delta in {0, pos+size, aligned multiples up to the table end, unaligned}; mul: all log_m classes; eval_poly: 0/1 vectors x covering truncations) executed on every engine (Naive, NoSimd, Ssse3, Avx2, Default, Neon source on emulated intrinsics) and compared on the contract-defined outputs only; guard shards and trailing blocks must be unchanged; plus whole encode/decode rounds on every engine. non-trivial: truncated<size, or >1 block, or skew index in the top half of the table, or odd number of layers; distinct by full case",
+        rule: "generated primitive calls (fft/ifft: buffer of n<=~1100 shards x 1..4 blocks, pos with guard shards on both sides, size=2^a, truncated_size in {0,1,size,2^b+-1,random}, skew_delta in {0, pos+size, aligned multiples up to the table end, unaligned}; mul: all log_m classes; eval_poly: 0/1 vectors x covering truncations) executed on every engine, a third of them on buffers at non-aligned addresses ([u8; 64] has alignment 1), (Naive, NoSimd, Ssse3, Avx2, Default, Neon source on emulated intrinsics) and compared on the contract-defined outputs only; guard shards and trailing blocks must be unchanged; plus whole encode/decode rounds on every engine. non-trivial: truncated<size, or >1 block, or skew index in the top half of the table, or odd number of layers; distinct by full case",
         assumptions: &[
             "fft is compared on positions pos..pos+truncated_size for any input; ifft on all size positions only when the input beyond truncated_size is zero (otherwise only confinement and absence of panic)",
             "Neon kernels run on seven emulated intrinsics (rsv-neon/src/neon_emu.rs)",
@@ -147,11 +147,13 @@ pub fn check_xform(c: &XformCase, st: &mut Stats) -> CheckResult {
     let size = 1usize << c.size_log;
     ensure!(c.trunc <= size && c.skew_delta + size <= 65536, "harness: case outside the contract");
     let input = build_input(c);
+    // a third of the cases run on a buffer that does not start on an aligned address ([u8; 64] has alignment 1)
+    let misalign = if c.seed % 3 == 0 && c.size_log <= 12 { 1 + (c.seed >> 8) as usize % 63 } else { 0 };
     let engs = engines();
     let mut outs: Vec<(Eng, Buf)> = Vec::new();
     for &e in &engs {
         let mut buf = input.clone();
-        prims::xform(e, c.which, &mut buf, c.pos, size, c.trunc, c.skew_delta);
+        prims::xform_at(e, c.which, &mut buf, misalign, c.pos, size, c.trunc, c.skew_delta);
         // confinement
         for i in (0..c.pos).chain(c.pos + size..buf.n) {
             ensure!(
@@ -197,6 +199,7 @@ pub fn check_xform(c: &XformCase, st: &mut Stats) -> CheckResult {
     st.classf("blocks", c.blocks);
     st.classf("trunc", if c.trunc == 0 { "0" } else if c.trunc == size { "full" } else { "partial" });
     st.classf("zero_tail", c.zero_tail);
+    st.classf("misaligned", if misalign == 0 { "no".to_string() } else { format!("mod8={}", misalign % 8) });
     st.classf("skew", if c.skew_delta == 0 { "0" } else if c.skew_delta % size == 0 { "aligned" } else { "unaligned" });
     let nontrivial = c.trunc < size || c.blocks > 1 || c.skew_delta + size > 32768 || c.size_log % 2 == 1;
     if nontrivial && cmp_len > 0 {
@@ -252,7 +255,7 @@ fn check_mul(c: &MulCase, st: &mut Stats) -> CheckResult {
     let mut outs = Vec::new();
     for e in engines() {
         let mut buf = input.clone();
-        prims::mul(e, &mut buf[..c.blocks], c.log_m);
+        prims::mul_at(e, &mut buf[..c.blocks], if c.seed % 3 == 0 { 1 + (c.seed >> 8) as usize % 63 } else { 0 }, c.log_m);
         ensure!(buf[c.blocks] == input[c.blocks], "mul on {} wrote beyond its slice", e.name());
         outs.push((e, buf));
     }
